@@ -87,11 +87,11 @@ CHECKS["C17"] = dict(level="model_checking", design="5/C17",
 
 # families added after the first version of the table (the measured numbers are in evidence/<id>.json)
 EXTRA = {
- "C01": " Later additions: composition templates (every ordered triple of 37 one-hole constructs around 10 leaves, top level and function-local), functions defined in nested top-level scopes, and the size ladders of ladders.rs (jump distances, entry offsets, local/global/constant counts and block nesting around every power of two and across the compiler's size limit), each rung compared with the reference interpreter.",
+ "C01": " Later additions: composition templates (every ordered triple of 37 one-hole constructs around 10 leaves, top level and function-local), functions defined in nested top-level scopes, and the size ladders of ladders.rs (jump distances, entry offsets, local/global/constant counts and block nesting around every power of two and across the compiler's size limit), each rung compared with the reference interpreter; scope events x kinds of use (every sequence of 2 / 3 events from a menu of 73 after a declaration, at top level, in a block and in a function body).",
  "C02": " Later additions: composition templates and all size-ladder programs (static exploration + conformance replay on code of up to 64 KiB). Heights are explored exactly; an instruction reached with more than 64 different heights is reported as lying on a stack-growing cycle.",
  "C05": " Later additions: calls with as many arguments as parameters across the 255-argument limit.",
  "C07": " Later additions: block-ended expressions (als, zolang, functie) without parentheses as left/right operand of every operator and as callee in 16 statement and expression contexts.",
- "C09": " Later additions: functions defined in top-level blocks / branches / loop bodies nested to depth 3 with every subset of levels declaring the same name; slot-number ladders (many globals, nested block locals, each read back).",
+ "C09": " Later additions: functions defined in top-level blocks / branches / loop bodies nested to depth 3 with every subset of levels declaring the same name; slot-number ladders (many globals, nested block locals, each read back); scope events x kinds of use (nine kinds of use directly / inside a block, branch or one-shot loop that does or does not declare the name again / inside a function with that parameter / after a second declaration; every pair of events, three contexts).",
  "C10": " Later additions: literal-pristine family (literals through 12 value-preserving contexts, modified in place, re-evaluated); constant-pool ladders (ints, floats, strings; indices across 255 and 65 535; the same literals again after the pool has grown; at top level and inside a function).",
  "C11": " Later additions: condition-driven loops around every body of <= 2 statements, literal-`ja` loops, depth-bounded templates, and jump-distance ladders up to the 64 KiB code limit (differential + static).",
  "C12": " Later additions: arity ladder (0..12 and around every power of two up to 255 arguments, x 0/1/3 locals, every parameter read back), empty bodies, locals in sibling blocks, frame-size and entry-offset ladders.",
